@@ -33,6 +33,10 @@ def gen_cases(rng, tier):
         eq = rng.random() < 0.5
         L = rng.randint(1, 5)
         series = [dtwgen.rand_series(rng, L if eq else rng.randint(1, 5), nd) for _ in range(ns)]
+        peaks = rng.random() < 0.08
+        if peaks:
+            series = dtwgen.shifted_peak_collection(rng, nd)
+            ns, eq = len(series), False
         x = rng.random()
         if x < 0.3 or ns < 1:
             block = None
@@ -55,6 +59,8 @@ def gen_cases(rng, tier):
             psi = [rng.randint(0, ml - 1), rng.randint(0, ml - 1), rng.randint(0, ml - 1), rng.randint(0, ml - 1)]
         st = {"window": rng.choice([None, 1, 2, 3]), "penalty": rng.choice([None, 1]), "psi": psi, "max_step": None,
               "max_length_diff": None, "inner_dist": rng.choice(dtwgen.INNERS) if nd == 1 else "squared euclidean"}
+        if peaks and rng.random() < 0.7:
+            st["window"] = None
         cases.append({"site": eng + "." + out, "eng": eng, "out": out, "series": series, "ndim": nd, "block": block,
                       "as_matrix": eq and rng.random() < 0.5, "settings": st, "n": ns})
     return cases
